@@ -168,7 +168,12 @@ def ensure_harness(name, defines=''):
     d = os.path.join(BUILD, 'h-%s-%s' % (name, key))
     with Lock('h-' + name):
         if not os.path.exists(os.path.join(d, 'ok')):
-            for o in glob.glob(os.path.join(BUILD, 'h-%s-*' % name)): shutil.rmtree(o, ignore_errors=True)
+            for o in glob.glob(os.path.join(BUILD, 'h-%s-*' % name)):
+                # older builds of this harness may still be in use by a concurrent run: only drop stale ones
+                try:
+                    if time.time() - os.path.getmtime(o) > 1800: shutil.rmtree(o, ignore_errors=True)
+                except OSError: pass
+            shutil.rmtree(d, ignore_errors=True)
             os.makedirs(d)
             flags = cxxflags() + ' -I%s/harness %s' % (VERIF, defines)
             _to_bc(src, d, flags, name='h')
